@@ -103,6 +103,23 @@ def do_subset(subset, tdir, expect_lines, steps, res, guard=False):
                 res.v("display:" + tag, f"feature subset [{tag}]: HpkeError Display output missing/changed", out[-500:])
             if guard != ("guard on" in out.splitlines()):
                 res.mach.append(f"guard flag not effective for [{tag}]")
+        # C16 in every subset: contexts wipe their secrets on drop (the secrets to look for come from R1)
+        if any(f in KEMS for f in subset):
+            rc, out, err = run(["cargo", "run", "--offline", "--quiet", "--bin", "wipe"] + fl(subset), os.path.join(ROOT, "probes"), tdir, guard)
+            res.evals += 1
+            if rc != 0 or "wipe probe ran" not in out:
+                res.v("wipe-run:" + tag, f"feature subset [{tag}]: the drop probe does not build/run", (out + err)[-3000:])
+            elif " false" in out:
+                bad = [l for l in out.splitlines() if l.endswith(" false")]
+                key = "wipe-vacuous:" if any("live contexts" in l for l in bad) and not any("dropped" in l for l in bad) else "wipe:"
+                if key == "wipe-vacuous:":
+                    res.mach.append(f"drop probe cannot see R1's secrets in live contexts for [{tag}]: " + "; ".join(bad))
+                else:
+                    res.v(key + tag, f"feature subset [{tag}]: a dropped context still holds the exporter secret or the base nonce: " + "; ".join(bad), out)
+                res.oc("wipe-FAIL")
+            else:
+                res.oc("wipe-ok")
+                res.nontrivial.add("wipe:" + tag)
         # allocating API exactly when alloc or std
         rc, out, err = run(["cargo", "build", "--offline", "--bin", "alloc_api"] + fl(subset), os.path.join(ROOT, "probes"), tdir, guard)
         res.evals += 1
@@ -227,7 +244,8 @@ def main():
     if p.returncode != 0 or not p.stdout.strip():
         print("MACHINERY-ERROR cannot get R1's transcript (hpke-mc C17-expect)", file=sys.stderr)
         return 2
-    expect_lines = p.stdout.splitlines()
+    expect_lines = [l for l in p.stdout.splitlines() if not l.startswith("#wipe ")]
+    os.environ["C17_WIPE_SECRETS"] = ";".join(l[6:] for l in p.stdout.splitlines() if l.startswith("#wipe "))
     if tier == "thorough":
         heavy = set(subsets)
     else:
